@@ -143,7 +143,7 @@ pub fn c17_is_semicomplete_n3_t8() {
 }
 
 // AdjacencyList::union of every order-2 with every order-3 digraph with exactly 2 CPU(s).
-// @verif prop=C17 tier=thorough fl=f2 role=union-list/t2 t=3600 mem=30 par=2
+// @verif prop=C17 tier=exp fl=f2 role=union-list/t2 t=3600 mem=30 par=2
 #[cfg_attr(kani, kani::proof)]
 #[cfg_attr(kani, kani::unwind(8))]
 pub fn c17_union_list_n2_m3_t2() {
@@ -151,7 +151,7 @@ pub fn c17_union_list_n2_m3_t2() {
 }
 
 // AdjacencyList::union of every order-2 with every order-3 digraph with exactly 4 CPU(s).
-// @verif prop=C17 tier=thorough fl=f2 role=union-list/t4 t=3600 mem=30 par=4
+// @verif prop=C17 tier=exp fl=f2 role=union-list/t4 t=3600 mem=30 par=4
 #[cfg_attr(kani, kani::proof)]
 #[cfg_attr(kani, kani::unwind(8))]
 pub fn c17_union_list_n2_m3_t4() {
@@ -159,7 +159,7 @@ pub fn c17_union_list_n2_m3_t4() {
 }
 
 // AdjacencyList::union of every order-2 with every order-3 digraph with exactly 1 CPU(s).
-// @verif prop=C17 tier=thorough fl=f2 role=union-list/t1 t=3600 mem=30 par=1
+// @verif prop=C17 tier=exp fl=f2 role=union-list/t1 t=3600 mem=30 par=1
 #[cfg_attr(kani, kani::proof)]
 #[cfg_attr(kani, kani::unwind(8))]
 pub fn c17_union_list_n2_m3_t1() {
@@ -167,7 +167,7 @@ pub fn c17_union_list_n2_m3_t1() {
 }
 
 // AdjacencyList::union of every order-2 with every order-3 digraph with exactly 3 CPU(s).
-// @verif prop=C17 tier=thorough fl=f2 role=union-list/t3 t=3600 mem=30 par=3
+// @verif prop=C17 tier=exp fl=f2 role=union-list/t3 t=3600 mem=30 par=3
 #[cfg_attr(kani, kani::proof)]
 #[cfg_attr(kani, kani::unwind(8))]
 pub fn c17_union_list_n2_m3_t3() {
@@ -175,7 +175,7 @@ pub fn c17_union_list_n2_m3_t3() {
 }
 
 // AdjacencyList::union of every order-2 with every order-3 digraph with exactly 8 CPU(s).
-// @verif prop=C17 tier=thorough fl=f2 role=union-list/t8 t=3600 mem=30 par=8
+// @verif prop=C17 tier=exp fl=f2 role=union-list/t8 t=3600 mem=30 par=8
 #[cfg_attr(kani, kani::proof)]
 #[cfg_attr(kani, kani::unwind(10))]
 pub fn c17_union_list_n2_m3_t8() {
@@ -183,7 +183,7 @@ pub fn c17_union_list_n2_m3_t8() {
 }
 
 // AdjacencyMap::union (merge-path partition) of two order-2 digraphs with exactly 2 CPU(s).
-// @verif prop=C17 tier=thorough fl=f2 feat=map4 role=union-map/t2 t=3600 mem=30 par=2
+// @verif prop=C17 tier=exp fl=f2 feat=map4 role=union-map/t2 t=3600 mem=30 par=2
 #[cfg_attr(kani, kani::proof)]
 #[cfg_attr(kani, kani::unwind(8))]
 pub fn c17_union_map_n2_m2_t2() {
@@ -191,7 +191,7 @@ pub fn c17_union_map_n2_m2_t2() {
 }
 
 // AdjacencyMap::union (merge-path partition) of two order-2 digraphs with exactly 3 CPU(s).
-// @verif prop=C17 tier=thorough fl=f2 feat=map4 role=union-map/t3 t=3600 mem=30 par=3
+// @verif prop=C17 tier=exp fl=f2 feat=map4 role=union-map/t3 t=3600 mem=30 par=3
 #[cfg_attr(kani, kani::proof)]
 #[cfg_attr(kani, kani::unwind(8))]
 pub fn c17_union_map_n2_m2_t3() {
@@ -199,7 +199,7 @@ pub fn c17_union_map_n2_m2_t3() {
 }
 
 // AdjacencyMap::union (merge-path partition) of two order-2 digraphs with exactly 1 CPU(s).
-// @verif prop=C17 tier=thorough fl=f2 feat=map4 role=union-map/t1 t=3600 mem=30 par=1
+// @verif prop=C17 tier=exp fl=f2 feat=map4 role=union-map/t1 t=3600 mem=30 par=1
 #[cfg_attr(kani, kani::proof)]
 #[cfg_attr(kani, kani::unwind(8))]
 pub fn c17_union_map_n2_m2_t1() {
@@ -207,7 +207,7 @@ pub fn c17_union_map_n2_m2_t1() {
 }
 
 // AdjacencyMap::union (merge-path partition) of two order-2 digraphs with exactly 4 CPU(s).
-// @verif prop=C17 tier=thorough fl=f2 feat=map4 role=union-map/t4 t=3600 mem=30 par=4
+// @verif prop=C17 tier=exp fl=f2 feat=map4 role=union-map/t4 t=3600 mem=30 par=4
 #[cfg_attr(kani, kani::proof)]
 #[cfg_attr(kani, kani::unwind(8))]
 pub fn c17_union_map_n2_m2_t4() {
@@ -215,7 +215,7 @@ pub fn c17_union_map_n2_m2_t4() {
 }
 
 // AdjacencyMap::union (merge-path partition) of two order-2 digraphs with exactly 8 CPU(s).
-// @verif prop=C17 tier=thorough fl=f2 feat=map4 role=union-map/t8 t=3600 mem=30 par=8
+// @verif prop=C17 tier=exp fl=f2 feat=map4 role=union-map/t8 t=3600 mem=30 par=8
 #[cfg_attr(kani, kani::proof)]
 #[cfg_attr(kani, kani::unwind(10))]
 pub fn c17_union_map_n2_m2_t8() {
@@ -223,7 +223,7 @@ pub fn c17_union_map_n2_m2_t8() {
 }
 
 // AdjacencyList::complete(5) with exactly 1 CPU(s): chunk sizes [5].
-// @verif prop=C17 tier=thorough fl=f2 role=complete/t1 t=3600 mem=30 par=1
+// @verif prop=C17 tier=exp fl=f2 role=complete/t1 t=3600 mem=30 par=1
 #[cfg_attr(kani, kani::proof)]
 #[cfg_attr(kani, kani::unwind(8))]
 pub fn c17_complete_n5_t1() {
@@ -239,7 +239,7 @@ pub fn c17_complete_n5_t2() {
 }
 
 // AdjacencyList::complete(5) with exactly 4 CPU(s): chunk sizes [2].
-// @verif prop=C17 tier=thorough fl=f2 role=complete/t4 t=3600 mem=30 par=4
+// @verif prop=C17 tier=exp fl=f2 role=complete/t4 t=3600 mem=30 par=4
 #[cfg_attr(kani, kani::proof)]
 #[cfg_attr(kani, kani::unwind(8))]
 pub fn c17_complete_n5_t4() {
@@ -247,7 +247,7 @@ pub fn c17_complete_n5_t4() {
 }
 
 // AdjacencyList::complete(5) with exactly 5 CPU(s): chunk sizes [1].
-// @verif prop=C17 tier=thorough fl=f2 role=complete/t5 t=3600 mem=30 par=5
+// @verif prop=C17 tier=exp fl=f2 role=complete/t5 t=3600 mem=30 par=5
 #[cfg_attr(kani, kani::proof)]
 #[cfg_attr(kani, kani::unwind(8))]
 pub fn c17_complete_n5_t5() {
@@ -255,7 +255,7 @@ pub fn c17_complete_n5_t5() {
 }
 
 // AdjacencyList::complete(5) with exactly 8 CPU(s): chunk sizes [1].
-// @verif prop=C17 tier=thorough fl=f2 role=complete/t8 t=3600 mem=30 par=8
+// @verif prop=C17 tier=exp fl=f2 role=complete/t8 t=3600 mem=30 par=8
 #[cfg_attr(kani, kani::proof)]
 #[cfg_attr(kani, kani::unwind(8))]
 pub fn c17_complete_n5_t8() {
@@ -263,7 +263,7 @@ pub fn c17_complete_n5_t8() {
 }
 
 // AdjacencyList::complete(5) with exactly 3 CPU(s): chunk sizes [2].
-// @verif prop=C17 tier=thorough fl=f2 role=complete/t3 t=3600 mem=30 par=3
+// @verif prop=C17 tier=exp fl=f2 role=complete/t3 t=3600 mem=30 par=3
 #[cfg_attr(kani, kani::proof)]
 #[cfg_attr(kani, kani::unwind(8))]
 pub fn c17_complete_n5_t3() {
@@ -271,7 +271,7 @@ pub fn c17_complete_n5_t3() {
 }
 
 // AdjacencyList::complete(5) with exactly 6 CPU(s): chunk sizes [1].
-// @verif prop=C17 tier=thorough fl=f2 role=complete/t6 t=3600 mem=30 par=6
+// @verif prop=C17 tier=exp fl=f2 role=complete/t6 t=3600 mem=30 par=6
 #[cfg_attr(kani, kani::proof)]
 #[cfg_attr(kani, kani::unwind(8))]
 pub fn c17_complete_n5_t6() {
@@ -279,7 +279,7 @@ pub fn c17_complete_n5_t6() {
 }
 
 // AdjacencyList::complete(5) with exactly 16 CPU(s): chunk sizes [1].
-// @verif prop=C17 tier=thorough fl=f2 role=complete/t16 t=3600 mem=30 par=16
+// @verif prop=C17 tier=exp fl=f2 role=complete/t16 t=3600 mem=30 par=16
 #[cfg_attr(kani, kani::proof)]
 #[cfg_attr(kani, kani::unwind(8))]
 pub fn c17_complete_n5_t16() {
@@ -287,7 +287,7 @@ pub fn c17_complete_n5_t16() {
 }
 
 // AdjacencyList::complete(5) with the CPU count symbolic in 1..=8.
-// @verif prop=C17 tier=thorough fl=f2 role=complete/p8 t=3600 mem=30
+// @verif prop=C17 tier=exp fl=f2 role=complete/p8 t=3600 mem=30
 #[cfg_attr(kani, kani::proof)]
 #[cfg_attr(kani, kani::unwind(10))]
 pub fn c17_complete_n5_p8() {
@@ -295,7 +295,7 @@ pub fn c17_complete_n5_p8() {
 }
 
 // AdjacencyList::complement on every digraph of order 2 with the CPU count symbolic in 1..=4 (chunk arithmetic for all counts in one query).
-// @verif prop=C17 tier=thorough fl=f2 role=complement/symbolic-p t=3600 mem=30
+// @verif prop=C17 tier=exp fl=f2 role=complement/symbolic-p t=3600 mem=30
 #[cfg_attr(kani, kani::proof)]
 #[cfg_attr(kani, kani::unwind(8))]
 pub fn c17_complement_n2_p4() {
